@@ -15,7 +15,9 @@ H = Harness("C17", ["OQ.Base.CaseEq", "OQ.Stats.Dist", "OQ.Stats.DistCases", "OQ
             "kinds: make (constructor on tuple / binary-string / comma-string keys, binary and multi-digit outcomes incl. "
             ">= 10, normalize on/off; weights dyadic with power-of-two total: exact, arbitrary or within 1e-9 of 1: "
             "1e-12) and make-invalid (empty, negative weight, unequal key lengths, all-zero, unparsable string); "
-            "sub (every subset/order of <= 5 qubits on 1-5 subsystems, source snapshotted before/after) and sub-invalid "
+            "sub (every subset/order of <= 5 qubits on 1-5 subsystems, plus sub-long: non-monotone lists of 4-6 qubits on 4-7 "
+            "subsystems incl. first/last spanning len-1 with the middle shuffled or replaced, on outcomes with a distinct "
+            "digit per position; source snapshotted before/after) and sub-invalid "
             "(empty, duplicate, out-of-range qubit lists); saveload (file round trip; one subsystem with outcomes >= 10 "
             "is signature F26); dist (pairs of binary distributions: mmd / clipped nll / js laws, values certified by "
             "interval goals); non-trivial = at least two outcomes (and at least two projected outcomes for sub)",
@@ -141,10 +143,41 @@ def gen(rng, tier):
         elif r < 0.32:
             items, what = gen_invalid(rng)
             yield dict(kind="make", items=items, normalize=rng.random() < 0.8, wmode="dyadic", what=what)
-        elif r < 0.62:
+        elif r < 0.52:
             items, wmode, nn = gen_items(rng, rng.choice(["dyadic", "dyadic", "float"]))
             qs = rng.sample(range(nn), rng.randint(1, nn))
             yield dict(kind="sub", items=items, normalize=rng.random() < 0.85, wmode=wmode, qs=qs)
+        elif r < 0.62:
+            # long non-monotone qubit lists on 4-7 subsystems; every outcome has a distinct digit per position and
+            # the weights are non-uniform, so any reordering or substitution of a listed qubit changes the marginal
+            nn = rng.randint(4, 7)
+            L = rng.randint(4, min(6, nn))
+            m = rng.randint(2, 5)
+            keys = []
+            while len(keys) < m:
+                k = rng.sample([0, 1, 2, 3, 4, 5, 6, 7, 8, 9, 10, 11, 12], nn)
+                if k not in keys:
+                    keys.append(k)
+            ws = gen_weights(rng, m, "dyadic")
+            shape = rng.choice(["span-shuffled", "span-shuffled", "span-replaced", "perm", "perm"])
+            if shape == "span-replaced" and nn == L:
+                shape = "span-shuffled"
+            if shape == "perm":
+                qs = rng.sample(range(nn), L)
+            else:                      # first and last fixed with last - first = L - 1, middle disturbed
+                a = rng.randint(0, nn - L)
+                mid = list(range(a + 1, a + L - 1))
+                if shape == "span-shuffled":
+                    while mid == sorted(mid):
+                        rng.shuffle(mid)
+                else:
+                    outside = [q for q in range(nn) if q < a or q > a + L - 1]
+                    for i in rng.sample(range(len(mid)), rng.randint(1, min(len(mid), len(outside)))):
+                        mid[i] = outside.pop(rng.randrange(len(outside)))
+                    if rng.random() < 0.5:
+                        rng.shuffle(mid)
+                qs = [a] + mid + [a + L - 1]
+            yield dict(kind="sub", items=[[k, w] for k, w in zip(keys, ws)], normalize=True, wmode="dyadic", qs=qs, shape=shape)
         elif r < 0.70:
             items, wmode, nn = gen_items(rng, "dyadic")
             what = rng.choice(["empty", "dup", "range", "range1"])
@@ -274,7 +307,8 @@ def run_sub(inp):
         if exact:
             chk += f" && make_eqb {craw(items)} {cbool(normalize)} (Ok {cdist(before)})"
     nproj = len({tuple(k[i] for i in qs) for k, _ in before}) if qs_ok else 0
-    kind = "sub" + ("-invalid:" + inp["what"] if "what" in inp else f"-{len(qs)}of{n}-{inp['wmode']}")
+    kind = "sub" + ("-invalid:" + inp["what"] if "what" in inp else
+                    f"-long-{inp['shape']}" if "shape" in inp else f"-{len(qs)}of{n}-{inp['wmode']}")
     return dict(chk=chk, oracle_ok=ok, oracle_msg=msg, kind=kind, nontrivial=len(before) >= 2 and (nproj >= 2 or not qs_ok))
 
 
